@@ -57,6 +57,11 @@ TRUSTED = [
   'all_signals, all_adjacency and all_upblk_writes; the driver derives them the same way from the sorted dump (plain '
   'signals only); the theorems cover their inputs, the nets themselves are compared with the real ones only',
   'the simulator is exercised (DefaultPassGroup, all signals compared every cycle), not modelled',
+  'per-object hierarchy metadata: (lvl name level parent host) of components / signals / method ports is derived in the driver '
+  'from the by-name entries (level = number of path segments; a signal sits one below its host, which is its parent) and '
+  'compared with the real get_component_level() / _dsl.level / get_parent_object() / get_host_component(); the full '
+  "per-object record (field 'obj': also interfaces and slices, is_top_level_signal, top-level signal, full_name vs repr, "
+  'my_name) is compared between the replaced and the from-scratch design by the direct oracle only',
   'the model is the INTENDED behaviour where the code was shown defective (see the module docstring); on those inputs the '
   'direct oracle reports the violation and the model comparison skips only the stale entries it reported',
 ]
